@@ -6,6 +6,7 @@ import (
 
 	"github.com/theQRL/go-qrllib/dilithium"
 
+	"verifharness/oracle"
 	"verifharness/trace"
 )
 
@@ -113,10 +114,12 @@ func c07(r *rand.Rand, tier string, tr *trace.Buf, extra map[string]interface{})
 		pw0, pct0 = -1, -1
 		its = append(its, it)
 	}
-	nkeys, nsig, npos := 1, 2, 3
+	nkeys, nsig, npos := 2, 7, 2
 	if tier == "thorough" {
-		nkeys, nsig, npos = 3, 6, 24
+		nkeys, nsig, npos = 5, 20, 2
 	}
+	// message lengths around the SHAKE-256 rate with and without the 32-byte tr prefix, and long ones
+	msgLens := []int{0, 1, 33, 103, 104, 105, 135, 136, 137, 200, 239, 240, 241, 271, 272, 273, 1000, 4563, 4564, 4595, 4596}
 	positions := func(n int) [][]int {
 		p := [][]int{{0, 0}, {7, 255}}
 		for len(p) < n {
@@ -138,7 +141,7 @@ func c07(r *rand.Rand, tier string, tr *trace.Buf, extra map[string]interface{})
 		var msgs [][]byte
 		var sigs [][]byte
 		for s := 0; s < nsig; s++ {
-			msg := make([]byte, []int{0, 1, 33, 135, 136, 200}[s%6])
+			msg := make([]byte, msgLens[(k*nsig+s)%len(msgLens)])
 			r.Read(msg)
 			its = nil
 			sig, err := d.Sign(msg)
@@ -236,6 +239,65 @@ func c07(r *rand.Rand, tier string, tr *trace.Buf, extra map[string]interface{})
 		out := make([]int32, 256)
 		ctr := dilithium.VerifRejEta(out, eb[:n])
 		tr.Emit(fix(dEvent{Ev: "sampler", Kind: "rejeta", Buf: ints(eb[:n]), Out: i32s(out[:ctr]), Ctr: int(ctr), Msg: []int{}, Positions: [][]int{}, Class: "all-nibbles"}))
+	}
+	// vector-level samplers: the nonce arithmetic of the signing loop (L*kappa + i) where the 16-bit
+	// nonce crosses a byte border (kappa = 36) and far out, and of key generation
+	{
+		var s64 [64]uint8
+		r.Read(s64[:])
+		for _, kappa := range []int{0, 1, 2, 35, 36, 37, 72, 73, 255, 256, 1000, 9361, 9362} {
+			y := dilithium.VerifPolyVecLUniformGamma1(s64, uint16(kappa))
+			for i := 0; i < dilithium.L; i++ {
+				tr.Emit(fix(dEvent{Ev: "sampler", Kind: "gamma1", Buf: ints(s64[:]), Out: i32s(y[i][:]), Ctr: (dilithium.L*kappa + i) & 0xffff, Msg: []int{}, Positions: [][]int{}, Class: "vector-level"}))
+			}
+		}
+		for _, n0 := range []int{0, 7, 250, 65530} {
+			s1, s2 := dilithium.VerifPolyVecUniformETA(&s64, uint16(n0))
+			for i := 0; i < dilithium.L; i++ {
+				tr.Emit(fix(dEvent{Ev: "sampler", Kind: "eta", Buf: ints(s64[:]), Out: i32s(s1[i][:]), Ctr: (n0 + i) & 0xffff, Msg: []int{}, Positions: [][]int{}, Class: "vector-level"}))
+			}
+			for i := 0; i < dilithium.K; i++ {
+				tr.Emit(fix(dEvent{Ev: "sampler", Kind: "eta", Buf: ints(s64[:]), Out: i32s(s2[i][:]), Ctr: (n0 + i) & 0xffff, Msg: []int{}, Positions: [][]int{}, Class: "vector-level"}))
+			}
+		}
+	}
+	// boundary search for the matrix sampler: (rho, nonce) whose SHAKE-128 stream contains a 23-bit
+	// candidate equal to q - 1 (accepted), q (rejected) or q + 1 within the part the sampler consumes;
+	// the streams are computed with the standard library, the library's polyUniform is then run on them
+	{
+		want := map[uint32]int{8380416: 0, 8380417: 0, 8380418: 0}
+		var rho [32]uint8
+		for tries := 0; tries < 3000000; tries++ {
+			done := true
+			for _, c := range want {
+				if c < 2 {
+					done = false
+				}
+			}
+			if done {
+				break
+			}
+			r.Read(rho[:8])
+			nonce := uint16(tries)
+			st, _ := oracle.Hash(oracle.SHAKE128_N, append(append([]byte{}, rho[:]...), byte(nonce), byte(nonce>>8)), 840)
+			acc := 0
+			hit := uint32(0)
+			for g := 0; g+3 <= len(st) && acc < 256; g += 3 {
+				t := uint32(st[g]) | uint32(st[g+1])<<8 | uint32(st[g+2]&0x7f)<<16
+				if c, ok := want[t]; ok && c < 2 {
+					hit = t
+				}
+				if t < 8380417 {
+					acc++
+				}
+			}
+			if hit != 0 {
+				want[hit]++
+				u := dilithium.VerifPolyUniform(&rho, nonce)
+				tr.Emit(fix(dEvent{Ev: "sampler", Kind: "uniform", Buf: ints(rho[:]), Out: i32s(u[:]), Ctr: int(nonce), Msg: []int{}, Positions: [][]int{}, Class: "candidate-at-q-boundary"}))
+			}
+		}
+		extra["uniform_boundary_streams"] = want
 	}
 	nsamp := 3
 	if tier == "thorough" {
